@@ -801,7 +801,8 @@ func genValidate(emit func(string), tier string, rng *Rng) {
 				spec := fdSpec{ddi: 0, fdn: 1, bt: 0x84, scale: 10, offset: 3, nmn: nat[0], nfn: nat[1]}
 				var custom tableFactory
 				if !std {
-					custom = tableFactory{{20, 2}: {true, 0x84, 7, 2}, {20, 3}: {false, 0x02, 9, 9}, {9999, 1}: {true, 0x86, 1, math.Copysign(0, -1)}}
+					custom = tableFactory{{20, 2}: {true, 0x84, 7, 2}, {20, 3}: {false, 0x84, 9, 9}, {20, 200}: {false, 0x02, 3, 0},
+						{9999, 1}: {true, 0x86, 1, math.Copysign(0, -1)}, {18, 9}: {true, 0x89, 2, 0}}
 				}
 				devSeq(p, std, custom, "validate2", ddi0, fieldDescMesg(spec), rec(dval(0, 1, proto.Float64(12.5))), rec(dval(0, 1, proto.Uint16(7))))
 			}
